@@ -589,11 +589,14 @@ func main() {
 	sort.Slice(results, func(i, j int) bool { return results[i].Layout.ID < results[j].Layout.ID })
 	// the current schema version = what a database created from nothing ends up with
 	current := -1
+	var refSchema []string // schema objects of a database the current code creates from nothing
 	for _, x := range results {
 		if x.Layout.NoFile && x.OpenErr == "" && x.BuildErr == "" {
 			current = x.After.UserVersion
+			refSchema = normSchema(x.After)
 		}
 	}
+	r.Extra("current_schema", refSchema)
 	if current < 0 && r.ReplayCase == "" {
 		r.Inconclusive("the 'no file' layout did not open: the current schema version is unknown")
 	}
@@ -640,6 +643,19 @@ func main() {
 			r.Violation("opened-with-stale-version:"+l.class(), name, fmt.Sprintf("New succeeded but user_version is %d, current is %d", x.After.UserVersion, current), wit)
 			continue
 		}
+		if current >= 0 {
+			if d := schemaDiff(refSchema, normSchema(x.After)); len(d) > 0 {
+				wit["schema_diff"] = d
+				wit["current_schema"] = refSchema
+				key := "opened-with-schema-not-current:" + l.class()
+				if l.UV == current {
+					// the file already claimed the current version: nothing was migrated, the claim was trusted
+					key = "opened-with-schema-not-current:claimed-current-version"
+				}
+				r.Violation(key, name, "New succeeded but the schema is not the one the current version defines: "+strings.Join(d, "; "), wit)
+				continue
+			}
+		}
 		if x.Reopen != "" {
 			wit["reopen_error"] = x.Reopen
 			r.Violation("opened-then-unopenable:"+l.class(), name, "New succeeded once, the next New on the same file failed: "+x.Reopen, wit)
@@ -660,6 +676,48 @@ func main() {
 		r.Inconclusive(fmt.Sprintf("only %d of %d layouts were evaluated", len(results), len(layouts)))
 	}
 	r.Finish()
+}
+
+// normSchema: schema objects as "type|name|table|sql" with the SQL text reduced to
+// what it declares (case, white space and IF NOT EXISTS do not matter).
+func normSchema(d dump) []string {
+	var out []string
+	for _, e := range d.Schema {
+		f := strings.SplitN(e, "|", 4)
+		if len(f) != 4 {
+			out = append(out, e)
+			continue
+		}
+		sq := strings.ToLower(f[3])
+		sq = strings.Join(strings.Fields(sq), "")
+		sq = strings.ReplaceAll(sq, "ifnotexists", "")
+		out = append(out, f[0]+"|"+f[1]+"|"+f[2]+"|"+sq)
+	}
+	sort.Strings(out)
+	return out
+}
+
+// schemaDiff lists what got lacks / has beyond the reference schema.
+func schemaDiff(ref, got []string) []string {
+	rs, gs := map[string]bool{}, map[string]bool{}
+	for _, x := range ref {
+		rs[x] = true
+	}
+	for _, x := range got {
+		gs[x] = true
+	}
+	var d []string
+	for _, x := range ref {
+		if !gs[x] {
+			d = append(d, "missing or different: "+x)
+		}
+	}
+	for _, x := range got {
+		if !rs[x] {
+			d = append(d, "not in a database created from scratch: "+x)
+		}
+	}
+	return d
 }
 
 func countRows(d dump) int {
